@@ -20,7 +20,7 @@ import (
 
 type c18Client struct {
 	Listener int    `json:"listener"`
-	Stage    string `json:"stage"` // dialled | new-sent | negotiating | in-authenticate | established | established-traffic | failing
+	Stage    string `json:"stage"` // dialled | new-sent | negotiating | in-authenticate | established | established-traffic | failing | rejected
 }
 
 type c18Case struct {
@@ -225,6 +225,23 @@ func runC18(c *c18Case) *c18Obs {
 				_ = x.raw.SendEnv(M{"id": sid, "from": fmt.Sprintf("h%d@cli.example/i", i), "state": "authenticating", "scheme": "plain", "authentication": M{"password": "hold"}})
 			case "failing":
 				_ = x.raw.SendBytes([]byte("this is not json\n"))
+			case "rejected":
+				// a handshake that the server answers with a failed session (unoffered scheme)
+				_ = x.raw.SendEnv(M{"state": "new"})
+				synctest.Wait()
+				x.raw.Drain()
+				sid := ""
+				for _, g := range x.raw.Got {
+					if id, ok := g.Env["id"].(string); ok {
+						sid = id
+					}
+				}
+				if n := len(x.raw.Got); n > 0 && x.raw.Got[n-1].Env["state"] == "negotiating" {
+					_ = x.raw.SendEnv(M{"id": sid, "state": "negotiating", "encryption": "none", "compression": "none"})
+					synctest.Wait()
+					x.raw.Drain()
+				}
+				_ = x.raw.SendEnv(M{"id": sid, "from": fmt.Sprintf("r%d@cli.example/i", i), "state": "authenticating", "scheme": "key", "authentication": M{"key": "k"}})
 			}
 		}
 	}
@@ -473,7 +490,7 @@ func genC18(rt *rapid.T) *c18Case {
 	nc := rapid.IntRange(0, 12).Draw(rt, "nclients")
 	for i := 0; i < nc; i++ {
 		c.Clients = append(c.Clients, c18Client{Listener: rapid.IntRange(0, nl-1).Draw(rt, "l"),
-			Stage: rapid.SampledFrom([]string{"dialled", "new-sent", "negotiating", "in-authenticate", "established", "established", "established-traffic", "failing"}).Draw(rt, "stage")})
+			Stage: rapid.SampledFrom([]string{"dialled", "new-sent", "negotiating", "in-authenticate", "established", "established", "established-traffic", "failing", "rejected"}).Draw(rt, "stage")})
 	}
 	if rapid.Bool().Draw(rt, "flood?") {
 		c.Flood = rapid.IntRange(1, 8).Draw(rt, "flood")
